@@ -2,8 +2,8 @@
     dynamical core under rotations about the polar axis (by an angle with
     abstract per-wavenumber tables c, s) and under the reflection about the
     equator.  Every field, every size, both modal layouts. *)
-From Dino Require Import Base.Ops Base.Sums Gen.DerivExprs Model.SHT Model.Deriv Model.Invariants Model.Symmetry
-     Thm.SHT Thm.Deriv.
+From Dino Require Import Base.Ops Base.Sums Base.Ord Gen.DerivExprs Model.SHT Model.Deriv Model.Invariants Model.Sigma Model.Implicit
+     Model.PrimEq Model.Symmetry Thm.SHT Thm.Deriv Thm.PrimEq.
 From Coq Require Import ZifyNat.
 Local Open Scope F_scope.
 Ltac Zify.zify_post_hook ::= Z.div_mod_to_equations.
@@ -766,3 +766,354 @@ Section Integrators.
     apply lf_step_equivariant; assumption.
   Qed.
 End Integrators.
+
+(** * 8. the nodal column algebra of the primitive equations (Model/PrimEq.v) *)
+Section PrimEqNodal.
+  Context {F : Type} {o : Ops F} {Fc : FieldC o}.
+  Add Field FFsy8 : (field_c : FieldTh o).
+  Variable c : @PEcfg F.
+
+  (** ** (a) every nodal function is pointwise in the horizontal: if all per-node inputs are permuted
+      (and the grid tables sec2_lat, f are invariant under the permutation - longitude shifts), the family of
+      nodal columns is the permuted family, hence so is every nodal output *)
+  Lemma mk_cols_permuted {P : Type} (pi : P -> P) (U V Z D T : P -> nat -> F) (gx gy sec2 cor : P -> F) p :
+    (forall p, sec2 (pi p) = sec2 p) -> (forall p, cor (pi p) = cor p) ->
+    mk_cols (fun p => U (pi p)) (fun p => V (pi p)) (fun p => Z (pi p)) (fun p => D (pi p)) (fun p => T (pi p))
+            (fun p => gx (pi p)) (fun p => gy (pi p)) sec2 cor p
+    = mk_cols U V Z D T gx gy sec2 cor (pi p).
+  Proof. intros Hs Hf. unfold mk_cols. rewrite Hs, Hf. reflexivity. Qed.
+
+  Theorem primeq_nodal_shift_equivariant {P A : Type} (pi : P -> P) (fn : NCol -> A)
+          (U V Z D T : P -> nat -> F) (gx gy sec2 cor : P -> F) p :
+    (forall p, sec2 (pi p) = sec2 p) -> (forall p, cor (pi p) = cor p) ->
+    fn (mk_cols (fun p => U (pi p)) (fun p => V (pi p)) (fun p => Z (pi p)) (fun p => D (pi p)) (fun p => T (pi p))
+                (fun p => gx (pi p)) (fun p => gy (pi p)) sec2 cor p)
+    = (fun p' => fn (mk_cols U V Z D T gx gy sec2 cor p')) (pi p).
+  Proof. intros Hs Hf. cbv beta. now rewrite mk_cols_permuted. Qed.
+
+  (** the mirrored family: node permutation (latitude reversal) with tables sec2 even, f odd, and the
+      field parities of [ncol_mirror] *)
+  Lemma mk_cols_mirrored {P : Type} (pi : P -> P) (U V Z D T : P -> nat -> F) (gx gy sec2 cor : P -> F) p :
+    (forall p, sec2 (pi p) = sec2 p) -> (forall p, cor p = - cor (pi p)) ->
+    mk_cols (fun p => U (pi p)) (fun p k => - V (pi p) k) (fun p k => - Z (pi p) k) (fun p => D (pi p)) (fun p => T (pi p))
+            (fun p => gx (pi p)) (fun p => - gy (pi p)) sec2 cor p
+    = ncol_mirror (mk_cols U V Z D T gx gy sec2 cor (pi p)).
+  Proof.
+    intros Hs Hf. unfold mk_cols, ncol_mirror. cbn [n_u n_v n_vort n_div n_temp n_gx n_gy n_sec2 n_f].
+    rewrite (Hs p), (Hf p). reflexivity.
+  Qed.
+
+  (** ** (b) parities of the nodal outputs under the mirror *)
+  Lemma udg_mirror (x : NCol) k : u_dot_grad (ncol_mirror x) k = u_dot_grad x k.
+  Proof. unfold u_dot_grad, ncol_mirror. cbn [n_u n_v n_gx n_gy n_sec2]. ring. Qed.
+
+  Lemma gfull_mirror (x : NCol) k : g_full_diag (ncol_mirror x) k = g_full_diag x k.
+  Proof. unfold g_full_diag. rewrite udg_mirror. reflexivity. Qed.
+
+  Lemma gfull_ad_mirror (x : NCol) k : g_full_adiabatic (ncol_mirror x) k = g_full_adiabatic x k.
+  Proof. unfold g_full_adiabatic. rewrite udg_mirror. reflexivity. Qed.
+
+  Lemma sigma_dot_mirror (x : NCol) r :
+    sigma_dot_full c (ncol_mirror x) r = sigma_dot_full c x r /\
+    sigma_dot_explicit c (ncol_mirror x) r = sigma_dot_explicit c x r.
+  Proof.
+    unfold sigma_dot_full, sigma_dot_explicit, g_explicit. split; apply sigma_dot_ext; intros k _.
+    - apply gfull_mirror.
+    - apply udg_mirror.
+  Qed.
+
+  Lemma vt_mirror (x : NCol) (s s' : nat -> F) n :
+    (n < cK c)%nat -> (forall k, s' k = s k) ->
+    vertical_tendency c (sigma_dot_full c (ncol_mirror x)) s' n = vertical_tendency c (sigma_dot_full c x) s n /\
+    vertical_tendency c (sigma_dot_explicit c (ncol_mirror x)) s' n = vertical_tendency c (sigma_dot_explicit c x) s n.
+  Proof.
+    intros Hn Hs. split; apply vertical_tendency_ext; try assumption; intros k _; try apply Hs;
+      apply (sigma_dot_mirror x k).
+  Qed.
+
+  Lemma vt_opp (w s : nat -> F) n :
+    (n < cK c)%nat -> vertical_tendency c w (fun k => - s k) n = - vertical_tendency c w s n.
+  Proof.
+    intros Hn. rewrite !vertical_tendency_closed by assumption. unfold adv_term, centered_difference.
+    rewrite !fdiv_def.
+    destruct (Nat.ltb (S n) (cK c)), (Nat.eqb n 0), (Nat.ltb (S (n - 1)) (cK c)); ring.
+  Qed.
+
+  Lemma tomega_mirror (x : NCol) (Tf : nat -> F) n :
+    t_omega_over_sigma_sp c Tf (g_explicit (ncol_mirror x)) (u_dot_grad (ncol_mirror x)) n
+      = t_omega_over_sigma_sp c Tf (g_explicit x) (u_dot_grad x) n /\
+    t_omega_over_sigma_sp c Tf (g_full_adiabatic (ncol_mirror x)) (u_dot_grad (ncol_mirror x)) n
+      = t_omega_over_sigma_sp c Tf (g_full_adiabatic x) (u_dot_grad x) n.
+  Proof.
+    unfold t_omega_over_sigma_sp, g_explicit. rewrite udg_mirror. split; f_equal; f_equal; apply g_part_ext; intros k _.
+    - apply udg_mirror.
+    - apply gfull_ad_mirror.
+  Qed.
+
+  (** scalar equations: the nodal totals handed to to_modal are EVEN *)
+  Theorem primeq_scalar_nodal_mirror va (m : Moist) (x : NCol) (q s : nat -> F) n :
+    (n < cK c)%nat ->
+    temp_nodal_total c va (ncol_mirror x) n = temp_nodal_total c va x n /\
+    temp_nodal_total_moist c va m (ncol_mirror x) q n = temp_nodal_total_moist c va m x q n /\
+    tracer_nodal_total c va (ncol_mirror x) s n = tracer_nodal_total c va x s n /\
+    log_pressure_tendency c (ncol_mirror x) = log_pressure_tendency c x /\
+    (* the flux components of div_sec_lat(u s, v s): (even, odd) *)
+    hsa_mu (ncol_mirror x) s n = hsa_mu x s n /\
+    hsa_mv (ncol_mirror x) s n = - hsa_mv x s n.
+  Proof.
+    intros Hn.
+    assert (TV : temp_vertical_tendency c va (ncol_mirror x) n = temp_vertical_tendency c va x n).
+    { unfold temp_vertical_tendency.
+      rewrite (proj1 (vt_mirror x (n_temp x) (n_temp (ncol_mirror x)) n Hn (fun k => eq_refl))).
+      rewrite (proj2 (vt_mirror x (cTref c) (cTref c) n Hn (fun k => eq_refl))). reflexivity. }
+    repeat split.
+    - unfold temp_nodal_total. rewrite TV. unfold temp_adiabatic. cbv zeta.
+      change (n_temp (ncol_mirror x)) with (n_temp x).
+      rewrite (proj1 (tomega_mirror x (cTref c) n)), (proj2 (tomega_mirror x (n_temp x) n)). reflexivity.
+    - unfold temp_nodal_total_moist. rewrite TV. unfold temp_adiabatic_moist. cbv zeta.
+      change (n_temp (ncol_mirror x)) with (n_temp x).
+      rewrite (proj1 (tomega_mirror x (cTref c) n)), (proj2 (tomega_mirror x _ n)). reflexivity.
+    - unfold tracer_nodal_total. destruct va; [|reflexivity].
+      rewrite (proj1 (vt_mirror x s s n Hn (fun k => eq_refl))). reflexivity.
+    - unfold log_pressure_tendency, sigma_integral. f_equal. apply sumn_ext; intros k _.
+      unfold xdsigma. now rewrite udg_mirror.
+    - unfold hsa_mv, ncol_mirror. cbn [n_v n_sec2]. ring.
+  Qed.
+
+  (** momentum equations: (combined_u, combined_v) is an (even, odd) vector; kinetic energy is even;
+      the three R T' variants are even *)
+  Theorem primeq_vector_nodal_mirror va (m : Moist) (x : NCol) (rt q qc qi : nat -> F) k :
+    (k < cK c)%nat ->
+    combined_u c va (ncol_mirror x) rt k = combined_u c va x rt k /\
+    combined_v c va (ncol_mirror x) rt k = - combined_v c va x rt k /\
+    kinetic (ncol_mirror x) k = kinetic x k /\
+    rt_dry c (ncol_mirror x) k = rt_dry c x k /\
+    rt_moist c m (ncol_mirror x) q k = rt_moist c m x q k /\
+    rt_cloud c m (ncol_mirror x) q qc qi k = rt_cloud c m x q qc qi k.
+  Proof.
+    intros Hk. repeat split.
+    - unfold combined_u. cbv zeta.
+      rewrite (proj1 (vt_mirror x (n_u x) (n_u (ncol_mirror x)) k Hk (fun _ => eq_refl))).
+      unfold ncol_mirror. cbn [n_u n_v n_vort n_f n_sec2 n_gx]. destruct va; ring.
+    - unfold combined_v. cbv zeta.
+      assert (E : vertical_tendency c (sigma_dot_full c (ncol_mirror x)) (n_v (ncol_mirror x)) k
+                  = - vertical_tendency c (sigma_dot_full c x) (n_v x) k).
+      { rewrite <- vt_opp by assumption.
+        exact (proj1 (vt_mirror x (fun j => - n_v x j) (n_v (ncol_mirror x)) k Hk (fun _ => eq_refl))). }
+      rewrite E. unfold ncol_mirror. cbn [n_u n_v n_vort n_f n_sec2 n_gy]. destruct va; ring.
+    - unfold kinetic, ncol_mirror. cbn [n_u n_v n_sec2]. rewrite !fdiv_def. ring.
+  Qed.
+
+  (** humidity corrections of the moist classes: divergence term even, curl term odd, geopotential term even.
+      [gqx], [gqy] = nodal cos_lat_grad(q): (even, odd). *)
+  Theorem primeq_humidity_nodal_mirror sparse (m : Moist) (x : NCol) (q gqx gqy : nat -> F) lapl k :
+    humidity_div_nodal c m (ncol_mirror x) q gqx (fun j => - gqy j) lapl k = humidity_div_nodal c m x q gqx gqy lapl k /\
+    humidity_curl_nodal c m (ncol_mirror x) gqx (fun j => - gqy j) k = - humidity_curl_nodal c m x gqx gqy k /\
+    humidity_geo_nodal c sparse m (ncol_mirror x) q k = humidity_geo_nodal c sparse m x q k.
+  Proof.
+    repeat split.
+    - unfold humidity_div_nodal, ncol_mirror. cbn [n_gx n_gy n_sec2]. ring.
+    - unfold humidity_curl_nodal, ncol_mirror. cbn [n_gx n_gy n_sec2]. ring.
+  Qed.
+End PrimEqNodal.
+
+(** * 9. the explicit tendencies of the primitive equations (ModalAssembly of Model/PrimEq.v) are
+    mirror-equivariant, over abstract horizontal operators that satisfy the mirror facts proved above
+    for the concrete ones *)
+Section PrimEqTendencyMirror.
+  Context {F : Type} {o : Ops F} {Fc : FieldC o}.
+  Add Field FFsy9 : (field_c : FieldTh o).
+  Variables W P : Type.
+  Variable inW : W -> Prop.                                  (* index range of a modal array *)
+  Variable toM : (P -> F) -> W -> F.                         (* grid.to_modal *)
+  Variable divc curlc : (W -> F) -> (W -> F) -> W -> F.      (* div_cos_lat, curl_cos_lat (clip=False) *)
+  Variable lap clip : (W -> F) -> W -> F.                    (* laplacian, clip_wavenumbers *)
+  Variable c : @PEcfg F.
+  Variable grav : F.
+  Variable piN : P -> P.                                     (* latitude reversal of the nodes *)
+  Variable Se So : (W -> F) -> W -> F.                       (* mirror of modal scalars / pseudo-scalars *)
+
+  Definition ext1 (L : (W -> F) -> W -> F) : Prop :=
+    forall a b, (forall w, inW w -> a w = b w) -> forall w, inW w -> L a w = L b w.
+  Definition ext2 (D : (W -> F) -> (W -> F) -> W -> F) : Prop :=
+    forall a a' b b', (forall w, inW w -> a w = a' w) -> (forall w, inW w -> b w = b' w) ->
+                      forall w, inW w -> D a b w = D a' b' w.
+  Definition lin1 (L : (W -> F) -> W -> F) : Prop :=
+    (forall a b w, inW w -> L (fun w' => a w' + b w') w = L a w + L b w) /\
+    (forall a w, inW w -> L (fun w' => - a w') w = - L a w) /\
+    (forall t a w, inW w -> L (fun w' => t * a w') w = t * L a w).
+
+  (** the operators only read their arguments on the index range *)
+  Hypothesis toM_ext : forall z z', (forall p, z p = z' p) -> forall w, inW w -> toM z w = toM z' w.
+  Hypothesis clip_ext : ext1 clip.
+  Hypothesis lap_ext : ext1 lap.
+  Hypothesis divc_ext : ext2 divc.
+  Hypothesis curlc_ext : ext2 curlc.
+  Hypothesis Se_ext : ext1 Se.
+  Hypothesis So_ext : ext1 So.
+  Hypothesis Se_lin : lin1 Se.
+  Hypothesis So_lin : lin1 So.
+  (** mirror facts of the horizontal operators (instances: analysis_mir_equivariant,
+      vector_calculus_mirror, l_scale_equivariant) *)
+  Hypothesis toM_even : forall z w, inW w -> toM (fun p => z (piN p)) w = Se (toM z) w.
+  Hypothesis toM_odd : forall z w, inW w -> toM (fun p => - z (piN p)) w = So (toM z) w.
+  Hypothesis divc_mir : forall a b w, inW w -> divc (Se a) (So b) w = Se (divc a b) w.
+  Hypothesis curlc_mir : forall a b w, inW w -> curlc (Se a) (So b) w = So (curlc a b) w.
+  Hypothesis lap_mir : forall a w, inW w -> lap (Se a) w = Se (lap a) w.
+  Hypothesis clip_Se : forall a w, inW w -> clip (Se a) w = Se (clip a) w.
+  Hypothesis clip_So : forall a w, inW w -> clip (So a) w = So (clip a) w.
+
+  (** the nodal columns of the mirrored state *)
+  Definition mirX (X : P -> NCol) : P -> NCol := fun p => ncol_mirror (X (piN p)).
+
+  Lemma toM_even' (z' z : P -> F) w : (forall p, z' p = z (piN p)) -> inW w -> toM z' w = Se (toM z) w.
+  Proof. intros E Hw. rewrite <- toM_even by assumption. now apply toM_ext. Qed.
+  Lemma toM_odd' (z' z : P -> F) w : (forall p, z' p = - z (piN p)) -> inW w -> toM z' w = So (toM z) w.
+  Proof. intros E Hw. rewrite <- toM_odd by assumption. now apply toM_ext. Qed.
+
+  (** the flux-divergence term -div_sec_lat(u s, v s) of a scalar s *)
+  Lemma flux_div_mirror (X : P -> NCol) (s : P -> nat -> F) r w :
+    inW w ->
+    divc (toM (fun p => hsa_mu (mirX X p) (s (piN p)) r)) (toM (fun p => hsa_mv (mirX X p) (s (piN p)) r)) w
+    = Se (divc (toM (fun p => hsa_mu (X p) (s p) r)) (toM (fun p => hsa_mv (X p) (s p) r))) w.
+  Proof.
+    intros Hw. rewrite <- divc_mir by assumption. apply divc_ext; try assumption; intros w' Hw'.
+    - apply (toM_even' _ (fun p => hsa_mu (X p) (s p) r)); [|assumption]. intros p. reflexivity.
+    - apply (toM_odd' _ (fun p => hsa_mv (X p) (s p) r)); [|assumption]. intros p.
+      unfold mirX, hsa_mv, ncol_mirror. cbn [n_v n_sec2]. ring.
+  Qed.
+
+  (** tracers: clip(to_modal(vertical + horizontal nodal) + (-div_sec_lat(u s, v s))) *)
+  Definition tracer_tendency_explicit (X : P -> NCol) (s : P -> nat -> F) (r : nat) (w : W) : F :=
+    clip (fun w' => toM (fun p => tracer_nodal_total c true (X p) (s p) r) w'
+                    + - divc (toM (fun p => hsa_mu (X p) (s p) r)) (toM (fun p => hsa_mv (X p) (s p) r)) w') w.
+
+  Lemma scalar_eq_mirror (A A' : W -> F) (X : P -> NCol) (s : P -> nat -> F) r w :
+    inW w -> (forall w', inW w' -> A' w' = Se A w') ->
+    clip (fun w' => A' w' + - divc (toM (fun p => hsa_mu (mirX X p) (s (piN p)) r))
+                                   (toM (fun p => hsa_mv (mirX X p) (s (piN p)) r)) w') w
+    = Se (clip (fun w' => A w' + - divc (toM (fun p => hsa_mu (X p) (s p) r)) (toM (fun p => hsa_mv (X p) (s p) r)) w')) w.
+  Proof.
+    intros Hw HA. destruct Se_lin as (Sadd & Sopp & _).
+    rewrite <- clip_Se by assumption. apply clip_ext; [|assumption]. intros w' Hw'.
+    rewrite Sadd, Sopp by assumption. rewrite HA, flux_div_mirror by assumption. reflexivity.
+  Qed.
+
+  Theorem primeq_temperature_mirror (X : P -> NCol) r w :
+    (r < cK c)%nat -> inW w ->
+    temp_tendency_explicit W P toM divc clip c (mirX X) r w = Se (temp_tendency_explicit W P toM divc clip c X r) w.
+  Proof.
+    intros Hr Hw. unfold temp_tendency_explicit.
+    apply (scalar_eq_mirror (toM (fun p => temp_nodal_total c true (X p) r)) _ X (fun p => n_temp (X p)) r w Hw).
+    intros w' Hw'. apply toM_even'; [|assumption]. intros p. unfold mirX.
+    exact (proj1 (primeq_scalar_nodal_mirror c true (mkMoist 0 0) (X (piN p)) (fun _ => 0) (fun _ => 0) r Hr)).
+  Qed.
+
+  Theorem primeq_temperature_moist_mirror (m : Moist) (X : P -> NCol) (q : P -> nat -> F) r w :
+    (r < cK c)%nat -> inW w ->
+    temp_tendency_explicit_moist W P toM divc clip c m (mirX X) (fun p => q (piN p)) r w
+    = Se (temp_tendency_explicit_moist W P toM divc clip c m X q r) w.
+  Proof.
+    intros Hr Hw. unfold temp_tendency_explicit_moist.
+    apply (scalar_eq_mirror (toM (fun p => temp_nodal_total_moist c true m (X p) (q p) r)) _ X (fun p => n_temp (X p)) r w Hw).
+    intros w' Hw'. apply toM_even'; [|assumption]. intros p. unfold mirX.
+    exact (proj1 (proj2 (primeq_scalar_nodal_mirror c true m (X (piN p)) (q (piN p)) (fun _ => 0) r Hr))).
+  Qed.
+
+  Theorem primeq_tracer_mirror (X : P -> NCol) (s : P -> nat -> F) r w :
+    (r < cK c)%nat -> inW w ->
+    tracer_tendency_explicit (mirX X) (fun p => s (piN p)) r w = Se (tracer_tendency_explicit X s r) w.
+  Proof.
+    intros Hr Hw. unfold tracer_tendency_explicit.
+    apply (scalar_eq_mirror (toM (fun p => tracer_nodal_total c true (X p) (s p) r)) _ X s r w Hw).
+    intros w' Hw'. apply toM_even'; [|assumption]. intros p. unfold mirX.
+    exact (proj1 (proj2 (proj2 (primeq_scalar_nodal_mirror c true (mkMoist 0 0) (X (piN p)) (fun _ => 0) (s (piN p)) r Hr)))).
+  Qed.
+
+  (** log surface pressure: to_modal(-sum_k G_k dsigma_k) *)
+  Theorem primeq_lnps_mirror (X : P -> NCol) w :
+    inW w ->
+    toM (fun p => log_pressure_tendency c (mirX X p)) w = Se (toM (fun p => log_pressure_tendency c (X p))) w.
+  Proof.
+    intros Hw. apply toM_even'; [|assumption]. intros p. unfold mirX.
+    unfold log_pressure_tendency, sigma_integral. f_equal. apply sumn_ext; intros k _.
+    unfold xdsigma. now rewrite udg_mirror.
+  Qed.
+
+  Lemma combined_pair_mirror (X : P -> NCol) (rt : P -> nat -> F) r :
+    (r < cK c)%nat ->
+    (forall w, inW w -> toM (fun p => combined_u c true (mirX X p) (rt (piN p)) r) w
+                        = Se (toM (fun p => combined_u c true (X p) (rt p) r)) w) /\
+    (forall w, inW w -> toM (fun p => combined_v c true (mirX X p) (rt (piN p)) r) w
+                        = So (toM (fun p => combined_v c true (X p) (rt p) r)) w).
+  Proof.
+    intros Hr. split; intros w Hw.
+    - apply toM_even'; [|assumption]. intros p. unfold mirX.
+      exact (proj1 (primeq_vector_nodal_mirror c true (mkMoist 0 0) (X (piN p)) (rt (piN p)) (fun _ => 0) (fun _ => 0) (fun _ => 0) r Hr)).
+    - apply toM_odd'; [|assumption]. intros p. unfold mirX.
+      exact (proj1 (proj2 (primeq_vector_nodal_mirror c true (mkMoist 0 0) (X (piN p)) (rt (piN p)) (fun _ => 0) (fun _ => 0) (fun _ => 0) r Hr))).
+  Qed.
+
+  (** divergence: the orography and the humidity correction enter as (mirrored) modal scalars *)
+  Theorem primeq_divergence_mirror (X : P -> NCol) (rt : P -> nat -> F) (orog hum : W -> F) r w :
+    (r < cK c)%nat -> inW w ->
+    div_tendency_explicit W P toM divc lap clip c grav (mirX X) (fun p => rt (piN p)) (Se orog) (Se hum) r w
+    = Se (div_tendency_explicit W P toM divc lap clip c grav X rt orog hum r) w.
+  Proof.
+    intros Hr Hw. destruct Se_lin as (Sadd & Sopp & Sscal). destruct (combined_pair_mirror X rt r Hr) as [CU CV].
+    unfold div_tendency_explicit. rewrite <- clip_Se by assumption. apply clip_ext; [|assumption]. intros w' Hw'.
+    rewrite !Sadd by assumption. rewrite Sscal, !Sopp by assumption.
+    assert (E1 : divc (toM (fun p => combined_u c true (mirX X p) (rt (piN p)) r))
+                      (toM (fun p => combined_v c true (mirX X p) (rt (piN p)) r)) w'
+                 = Se (divc (toM (fun p => combined_u c true (X p) (rt p) r)) (toM (fun p => combined_v c true (X p) (rt p) r))) w').
+    { rewrite <- divc_mir by assumption. apply divc_ext; assumption. }
+    assert (E2 : lap (toM (fun p => kinetic (mirX X p) r)) w' = Se (lap (toM (fun p => kinetic (X p) r))) w').
+    { rewrite <- lap_mir by assumption. apply lap_ext; [|assumption]. intros w'' Hw''.
+      apply toM_even'; [|assumption]. intros p. unfold mirX.
+      exact (proj1 (proj2 (proj2 (primeq_vector_nodal_mirror c true (mkMoist 0 0) (X (piN p)) (fun _ => 0) (fun _ => 0) (fun _ => 0) (fun _ => 0) r Hr)))). }
+    rewrite E1, E2, (lap_mir orog w' Hw'). reflexivity.
+  Qed.
+
+  (** vorticity: a pseudo-scalar *)
+  Theorem primeq_vorticity_mirror (X : P -> NCol) (rt : P -> nat -> F) (hum : W -> F) r w :
+    (r < cK c)%nat -> inW w ->
+    vort_tendency_explicit W P toM curlc clip c (mirX X) (fun p => rt (piN p)) (So hum) r w
+    = So (vort_tendency_explicit W P toM curlc clip c X rt hum r) w.
+  Proof.
+    intros Hr Hw. destruct So_lin as (Sadd & Sopp & _). destruct (combined_pair_mirror X rt r Hr) as [CU CV].
+    unfold vort_tendency_explicit. rewrite <- clip_So by assumption. apply clip_ext; [|assumption]. intros w' Hw'.
+    rewrite Sadd, Sopp by assumption.
+    assert (E1 : curlc (toM (fun p => combined_u c true (mirX X p) (rt (piN p)) r))
+                       (toM (fun p => combined_v c true (mirX X p) (rt (piN p)) r)) w'
+                 = So (curlc (toM (fun p => combined_u c true (X p) (rt p) r)) (toM (fun p => combined_v c true (X p) (rt p) r))) w').
+    { rewrite <- curlc_mir by assumption. apply curlc_ext; assumption. }
+    rewrite E1. reflexivity.
+  Qed.
+
+  (** humidity corrections of the moist classes (inputs: q even, grad q = (even, odd), laplacian(lnps) even) *)
+  Theorem primeq_humidity_mirror (m : Moist) (X : P -> NCol) (q gqx gqy : P -> nat -> F) (lapn : P -> F) r w :
+    inW w ->
+    humidity_div_modal W P toM lap c m (mirX X) (fun p => q (piN p)) (fun p => gqx (piN p)) (fun p k => - gqy (piN p) k)
+                       (fun p => lapn (piN p)) r w
+      = Se (humidity_div_modal W P toM lap c m X q gqx gqy lapn r) w /\
+    humidity_curl_modal W P toM c m (mirX X) (fun p => gqx (piN p)) (fun p k => - gqy (piN p) k) r w
+      = So (humidity_curl_modal W P toM c m X gqx gqy r) w.
+  Proof.
+    intros Hw. destruct Se_lin as (Sadd & Sopp & _). split.
+    - unfold humidity_div_modal.
+      rewrite (Se_ext _ (fun w' => - lap (toM (fun p => humidity_geo_nodal c false m (X p) (q p) r)) w'
+                                   + - toM (fun p => humidity_div_nodal c m (X p) (q p) (gqx p) (gqy p) (lapn p) r) w'))
+        by (try assumption; intros; ring).
+      rewrite Sadd, !Sopp by assumption.
+      transitivity (- lap (toM (fun p => humidity_geo_nodal c false m (mirX X p) (q (piN p)) r)) w
+                    + - toM (fun p => humidity_div_nodal c m (mirX X p) (q (piN p)) (gqx (piN p)) (fun k => - gqy (piN p) k) (lapn (piN p)) r) w);
+        [ring|].
+      f_equal; f_equal.
+      + rewrite <- lap_mir by assumption. apply lap_ext; [|assumption]. intros w' Hw'.
+        apply toM_even'; [|assumption]. intros p. reflexivity.
+      + apply toM_even'; [|assumption]. intros p. unfold mirX.
+        exact (proj1 (primeq_humidity_nodal_mirror c false m (X (piN p)) (q (piN p)) (gqx (piN p)) (gqy (piN p)) (lapn (piN p)) r)).
+    - unfold humidity_curl_modal. apply toM_odd'; [|assumption]. intros p. unfold mirX.
+      exact (proj1 (proj2 (primeq_humidity_nodal_mirror c false m (X (piN p)) (fun _ => 0) (gqx (piN p)) (gqy (piN p)) 0 r))).
+  Qed.
+End PrimEqTendencyMirror.
